@@ -24,12 +24,14 @@
      not exhausted rewrites the row to MaxBudget;
    * DBV2.lastMappingIDToInsert lives in memory only: it is 0 after every (re)open, so
      the first creation after an open is charged even inside the global budget.
-   Three defects found with this model are kept as switchable deviations (`Bugs`), used to
+   Four defects found with this model are kept as switchable deviations (`Bugs`), used to
    show that the invariants are live:  "replay-rename" (applyEditEntityEvent matched on
    the new name and never set it), "reset-unrounded" (ResetFlood stored the unrounded
    clock, so the uint32 subtraction in calcBudget wrapped and refilled the budget),
    "ns-typeconf" (an edit carrying another event type than the stored one bypassed
-   checkNamespace and renamed a namespace).  The repository carries the repairs.      *)
+   checkNamespace and renamed a namespace), "ns-createflag" (a create-flagged request on an
+   existing builtin namespace became an edit without the rename rule).  The repository
+   carries the repairs.                                                               *)
 EXTENDS Integers, Sequences, FiniteSets, TLC, Json
 
 CONSTANTS
@@ -119,6 +121,12 @@ SaveEntityF(d, clk, rq) ==
                  THEN (IF d.ent[rq.id].name # rq.name THEN "renamens" ELSE "ok")
                  ELSE "nsmissing"
             ELSE "ok"
+        nsRule2 ==  \* SaveEntity: an existing builtin id turns a create-flagged request into an edit, the rule applies then
+            IF "ns-createflag" \notin Bugs /\ rq.create /\ rq.typ = TNs /\ rq.id < 0 /\ rq.id \in DOMAIN d.ent
+            THEN IF d.ent[rq.id].typ = TNs /\ d.ent[rq.id].ver = rq.old
+                 THEN (IF d.ent[rq.id].name # rq.name THEN "renamens" ELSE "ok")
+                 ELSE "nsmissing"
+            ELSE "ok"
         rn == ResolveNs(d, rq.name, rq.typ)
         exists == \E j \in DOMAIN d.ent : d.ent[j].typ = rq.typ /\ d.ent[j].name = rq.name  \* checkCreateEntity
         fixed  == rq.id < 0 /\ rq.id \notin DOMAIN d.ent
@@ -127,6 +135,7 @@ SaveEntityF(d, clk, rq) ==
     IN  IF nsRule # "ok" THEN SaveFail(d, nsRule)
         ELSE IF ~rn.ok THEN SaveFail(d, "nsmissing")
         ELSE IF rq.create /\ exists THEN SaveFail(d, "exists")
+        ELSE IF nsRule2 # "ok" THEN SaveFail(d, nsRule2)
         ELSE IF ~create
         THEN IF ~(rq.id \in DOMAIN d.ent /\ d.ent[rq.id].ver = rq.old
                   /\ ("ns-typeconf" \in Bugs \/ d.ent[rq.id].typ = rq.typ))
@@ -406,6 +415,9 @@ TakeSnapshot ==
 -------------------------------------------------------------------------------
 (* request alphabets *)
 CreateReqs == {Req(n, i, 0, p, TRUE, t) : n \in Names, i \in {0} \cup PredefIds, p \in {CHOOSE q \in Payloads : q.del = 0}, t \in CreateTypes}
+(* a create-flagged request that names an existing builtin entity and its current version *)
+CreateOverReqs == {Req(n, i, db.ent[i].ver, CHOOSE q \in Payloads : q.del = 0, TRUE, db.ent[i].typ) :
+                   n \in Names, i \in PredefIds \cap DOMAIN db.ent}
 OldChoices(i) == IF i \in DOMAIN db.ent THEN {db.ent[i].ver, db.ent[i].ver - 1} ELSE {0}
 TypChoices(i) == IF i \in DOMAIN db.ent THEN {db.ent[i].typ} \cup MismatchTypes ELSE CreateTypes
 EditReqs == UNION {{Req(n, i, o, p, FALSE, t) : n \in Names, o \in OldChoices(i), p \in Payloads, t \in TypChoices(i)}
@@ -418,7 +430,7 @@ Core == <<db, clock, lastCreated, binlog, snaps, issued, used, credit, exhausted
    does not count, so the exhaustive search covers every history of MaxOps effective
    operations with every refused request in between. *)
 Next == /\ nops < MaxOps
-        /\ \/ \E rq \in CreateReqs \cup EditReqs : Save(rq)
+        /\ \/ \E rq \in CreateReqs \cup CreateOverReqs \cup EditReqs : Save(rq)
            \/ \E i \in DOMAIN db.ent : \E q1 \in RaceReqs(i), q2 \in RaceReqs(i) : q1 # q2 /\ Race(q1, q2)
            \/ \E m \in Metrics, k \in Keys : GetOrCreate(m, k)
            \/ \E a \in PutArgs : PutMapping(a[1], a[2])
